@@ -99,7 +99,7 @@ Clauses(ev) ==
                     /\ obsRoot = Canon(AsMap(bcontents))
                     /\ (Clean => Stored(obsRoot) \subseteq odb')
                     /\ (~prune => sodb \subseteq odb')
-                    /\ ((~prune /\ Clean) => (odb' \ sodb) \subseteq Stored(obsRoot))>>,
+                    /\ (Clean => (odb' \ sodb) \subseteq Stored(obsRoot))>>,
    \* C06: exact pruning and true counts (outer trie, no batch open)
    <<"C06.exact", (prune /\ ~bopen' /\ Clean /\ o.kind = res'.kind) => odb' = Stored(Canon(AsMap(contents')))>>,
    <<"C06.rc", (prune /\ ~bopen' /\ Clean /\ o.kind = res'.kind) =>
